@@ -156,6 +156,7 @@ def check(repo):
             fts, ftd = fn_terms(repo, ser), fn_terms(repo, de)
             if suffix == "Result":
                 _check_result_refusals(r1, ci, de)
+                _check_result_container(repo, r1, s, ci, de)
             sf = ser_fields(fts, ser)
             attrs = s.ctor_positional(ci)
             slots = None
@@ -307,6 +308,58 @@ def _check_result_refusals(r1, ci, de):
                    "configured size - which EDBSetup and Search accept - can no longer be read back on the client" % (ci.name, " ".join(map(str, k))))
     else:
         r1.ok({"class": ci.name, "check": "deserialize refuses only by payload type"})
+
+
+def _container_kind(t, depth=0):
+    """'set' / 'list' for a term that is recognisably one of the two, else None."""
+    if depth > 8 or not isinstance(t, tuple) or not t:
+        return None
+    if t[0] in ("list",):
+        return "list"
+    if t[0] == "set":
+        return "set"
+    if t[0] == "comp":
+        return {"ListComp": "list", "SetComp": "set"}.get(t[1])
+    if t[0] == "call" and t[1] in ("list", "sorted"):
+        return "list"
+    if t[0] == "call" and t[1] in ("set", "frozenset"):
+        return "set"
+    if t[0] == "cont":
+        return _container_kind(t[2], depth + 1)
+    if t[0] == "phi":
+        kinds = {_container_kind(x, depth + 1) for x in t[1]}
+        return kinds.pop() if len(kinds) == 1 else None
+    return None
+
+
+def _check_result_container(repo, r1, s, ci, de):
+    """deserialize accepts one container type (isinstance(<unpickled>, T)); every result object the search builds has to hold that
+    type - a result built around the other one cannot be read back by the client."""
+    from ..facts import facts_of
+    want = None
+    for c in ast.walk(de.node):
+        if isinstance(c, ast.Call) and dotted(c.func) == "isinstance" and len(c.args) == 2:
+            tn = (dotted(c.args[1]) or "").split(".")[-1].lower()
+            if tn in ("set", "list"):
+                want = tn
+    if want is None:
+        return
+    search = s.method("_Search")
+    fts = fn_terms(repo, search)
+    for n in fts.cfg.nodes:
+        if n.kind != "return" or n.stmt.value is None:
+            continue
+        t = fts.term(n.stmt.value, n.id)
+        for alt in (t[1] if t[0] == "phi" else [t]):
+            if alt[0] == "call" and isinstance(alt[1], str) and alt[1].endswith("%s.__init__" % ci.name) and alt[2]:
+                kind = _container_kind(alt[2][0])
+                desc = {"scheme": s.name, "result_arg": show(alt[2][0], maxdepth=3)[:80], "deserialize_accepts": want, "line": n.line}
+                if kind is not None and kind != want:
+                    r1.fail_fn(search, n.stmt, "result container is a %s" % kind,
+                               "%s._Search returns a %s holding a %s, but %s.deserialize only accepts a pickled %s: that result (e.g. the one for a keyword that is not in the "
+                               "database) does not survive its own wire format" % (s.name, ci.name, kind, ci.name, want), witness=desc)
+                else:
+                    r1.ok(desc)
 
 
 def S_show(t):
